@@ -1,1 +1,152 @@
+//! `otref` — the independent structural OpenType checker (engine C, trusted base).
+//!
+//! `check_font` takes the bytes of a compiled font and returns a summary plus the list of
+//! every way the file fails to be a well-formed, internally consistent TrueType-flavoured
+//! OpenType font. The container is checked on raw bytes (`sfnt`); tables are parsed with
+//! read-fonts (`skrifa::raw`) only — no font *writer* and no fontc code is involved.
+//!
+//! Modules, in the order `check_font` runs them:
+//!  * `sfnt`       header, directory, offsets, padding, checksums
+//!  * `tables`     required tables, opening each table, full generic traversal (`walk`)
+//!  * `refs`       the cross-table references found by the traversal and their bounds
+//!  * `glyphs`     glyf/loca parsed by hand: component graph, maxp limits
+//!  * `counts`     every table that is indexed by glyph id agrees on the glyph count
+//!  * `cmap`       every mapping of every cmap subtable
+//!  * `variations` axis counts, variation stores, delta-set index maps, gvar
+//!  * `second`     skrifa as a second reader
 
+pub mod cmap;
+pub mod counts;
+pub mod glyphs;
+pub mod refs;
+pub mod second;
+pub mod sfnt;
+pub mod tables;
+pub mod variations;
+pub mod walk;
+
+/// One defect. `code` is a stable short identifier (`dir-unsorted`, `checksum:glyf`,
+/// `gid-range:GSUB-CoverageFormat1`, …); `detail` says what was found where.
+#[derive(Debug, Clone, PartialEq, Eq, serde::Serialize)]
+pub struct Issue {
+    pub code: String,
+    pub detail: String,
+}
+
+#[derive(Debug, Clone, Default, PartialEq, Eq, serde::Serialize)]
+pub struct Summary {
+    pub num_glyphs: u16,
+    /// table tags in directory order
+    pub tables: Vec<String>,
+    /// number of cross-table references (glyph ids, lookup/feature indices, name ids,
+    /// variation indices, region indices, axis indices, delta-set map entries) that were
+    /// compared against their bound
+    pub refs_checked: u64,
+    /// the same, split by kind of reference and where it was found (`lookup-index/Feature`,
+    /// `glyph-id/GSUB`, `variation-index/GPOS`, …)
+    pub refs_by_kind: std::collections::BTreeMap<String, u64>,
+    pub is_variable: bool,
+    pub has_gsub: bool,
+    pub has_gpos: bool,
+    pub composite_glyphs: u32,
+    pub max_component_depth: u16,
+    /// fields and array items visited by the generic traversal
+    pub fields_traversed: u64,
+    /// tables present in the file that this checker has no reader for (not an issue)
+    pub untraversed_tables: Vec<String>,
+}
+
+/// Issue collector. Identical codes are reported at most `PER_CODE_CAP` times so that one
+/// defect repeated over ten thousand glyphs stays readable; the count is kept.
+#[derive(Default)]
+pub struct Issues {
+    list: Vec<Issue>,
+    per_code: std::collections::BTreeMap<String, usize>,
+}
+
+const PER_CODE_CAP: usize = 3;
+
+impl Issues {
+    pub fn add(&mut self, code: &str, detail: String) {
+        let n = self.per_code.entry(code.to_string()).or_insert(0);
+        *n += 1;
+        if *n <= PER_CODE_CAP {
+            self.list.push(Issue { code: code.to_string(), detail });
+        }
+    }
+
+    pub fn into_vec(mut self) -> Vec<Issue> {
+        for issue in self.list.iter_mut().rev() {
+            // annotate the last reported instance of a capped code with the real count
+            if let Some(n) = self.per_code.remove(&issue.code) {
+                if n > PER_CODE_CAP {
+                    issue.detail.push_str(&format!(" (and {} more of this kind)", n - PER_CODE_CAP));
+                }
+            }
+        }
+        self.list
+    }
+}
+
+/// Running count of references compared against a bound.
+#[derive(Default)]
+pub struct RefCount {
+    by_kind: std::collections::BTreeMap<String, u64>,
+}
+
+impl RefCount {
+    pub fn add(&mut self, kind: &str, n: u64) {
+        if n > 0 {
+            *self.by_kind.entry(kind.to_string()).or_insert(0) += n;
+        }
+    }
+}
+
+/// Check one font file.
+pub fn check_font(bytes: &[u8]) -> (Summary, Vec<Issue>) {
+    let mut issues = Issues::default();
+    let mut refs = RefCount::default();
+    let mut summary = Summary::default();
+
+    // 1. container
+    let sfnt = sfnt::check_container(bytes, &mut issues);
+    summary.tables = sfnt.tags();
+    summary.is_variable = sfnt.has(b"fvar");
+    summary.has_gsub = sfnt.has(b"GSUB");
+    summary.has_gpos = sfnt.has(b"GPOS");
+
+    // 2. required tables; open every table; traverse every field
+    tables::check_required(&sfnt, &mut issues);
+    let font = tables::Font::open(&sfnt, &mut issues);
+    summary.num_glyphs = font.num_glyphs.unwrap_or(0);
+    tables::check_head(&font, &mut issues);
+    //    (cross-table references are range-checked as the traversal meets them)
+    {
+        let mut checker = refs::RefChecker::new(refs::Bounds::of(&font), &mut issues, &mut refs);
+        tables::traverse_all(&sfnt, &font, &mut checker, &mut summary);
+    }
+    refs::check_colr_layers(&font, &mut issues, &mut refs);
+    refs::check_pairpos2_devices(&font, &mut issues, &mut refs);
+    refs::check_extension_lookups(&font, &mut issues, &mut refs);
+
+    // 3. glyphs
+    let glyph_stats = glyphs::check_glyphs(&font, &mut issues, &mut refs);
+    summary.composite_glyphs = glyph_stats.composite_glyphs;
+    summary.max_component_depth = glyph_stats.max_component_depth;
+
+    // 4. glyph-count agreement
+    counts::check_counts(&font, &mut issues);
+
+    // 5. cmap
+    cmap::check_cmap(&font, &mut issues, &mut refs);
+
+    // 6. variations
+    variations::check_variations(&font, &mut issues, &mut refs);
+
+    // 7. second reader
+    second::check_with_skrifa(bytes, &font, &mut issues);
+
+    summary.refs_checked = refs.by_kind.values().sum();
+    summary.refs_by_kind = refs.by_kind;
+    (summary, issues.into_vec())
+}
